@@ -268,7 +268,7 @@ func advValidateActs(w *world.World, b string) []engine.Action {
 func init() {
 	engine.Register(&engine.Property{
 		ID: "C02", Level: "model_checking",
-		Rule: "E1: (1) adversary-only action menu, invariant 'no browser holds uid=victim' on every reachable state; (2) full-knowledge menu, per-transition rule on first-factor and validate requests; classes = pending/complete/reject kinds hit",
+		Rule:  "E1: (1) adversary-only action menu, invariant 'no browser holds uid=victim' on every reachable state; (2) full-knowledge menu, per-transition rule on first-factor and validate requests; classes = pending/complete/reject kinds hit",
 		Units: func(tier string) []engine.Unit { return e1Units(c02Scenarios(tier)) },
 		Assumptions: []string{
 			"adversary model: knows the victim's password, owns accounts A (own TOTP secret / phone / recovery codes / OTPs) and N, controls two browsers, can wait 5/11/31 s; never reads the victim's phone, mailbox, TOTP secret or recovery codes",
